@@ -147,11 +147,11 @@ func Verif_C15_open_bytes_structured() {
 }
 
 func Verif_C15_open_bytes_small() {
-	n := 16
+	n := 18
 	if verifTier() >= 1 {
-		n = 20
+		n = 22
 	}
-	verifNote("OPEN bytes->value->bytes: every body of length <= 16 (quick) / 20 (thorough)")
+	verifNote("OPEN bytes->value->bytes: every body of length <= 18 (quick) / 22 (thorough) — two capability parameters fit from 18 bytes on")
 	verifWant("sm-open-rejected")
 	verifWant("sm-open-accepted")
 	c15OpenBytes("sm-", n, 3, 3)
